@@ -100,26 +100,17 @@ def quest(chk, prog, tier):
         it.exec_block(body[:widx], env)
         return it, env
 
+    from sa.lib import newton_updates, newton_derivative
+    ups = newton_updates(f.node)
+    if not ups:
+        chk.error("QUEST: Newton update  x -= u/v  not found")
+        return
+    _, xname, uname, vname, uexpr, vexpr = ups[0]
+
     def phi_exprs(it, env):
-        loop = body[widx]
-        env.vars["l_max"] = lam
-        phi = phip = None
-        for s in loop.body:
-            if isinstance(s, ast.Assign) and isinstance(s.targets[0], ast.Name):
-                if s.targets[0].id == "phi":
-                    phi = it.eval(s.value, env)
-                if s.targets[0].id == "phi_prime":
-                    phip = it.eval(s.value, env)
-        return phi, phip
-    def derivative():
-        it = Interp(prog)
-        env = Env(f.module, f)
-        env.vars.update({n: P.sym("q_" + n) for n in ("a", "b", "c", "k", "d", "sigma")})
-        phi, phip = phi_exprs(it, env)
-        if phi is None or phip is None:
-            return (None, "phi / phi_prime assignments not found in the Newton loop")
-        return eq(phip, phi.deriv("lam"), "phi_prime")
-    chk.ob("QUEST.newton", f.ref, "phi_prime == d phi / d lambda", derivative, construct="Newton derivative", **kw)
+        env.vars[xname] = lam
+        return it.eval(uexpr, env), it.eval(vexpr, env)
+    chk.ob("QUEST.newton", f.ref, "phi_prime == d phi / d lambda", lambda: newton_derivative(prog, f), construct="Newton derivative", **kw)
     bidx = max((i for i, s_ in enumerate(body[:widx]) if isinstance(s_, ast.Assign) and isinstance(s_.targets[0], ast.Name) and s_.targets[0].id == "B"), default=None)
     if bidx is None:
         chk.error("QUEST: assignment of the attitude profile matrix B not found")
@@ -160,11 +151,11 @@ def quest(chk, prog, tier):
         it, env = prefix_env(acc, mag, wts, g_q, m_q)
         phi, _ = phi_exprs(it, env)
         root = eq(phi.subs({"lam": wts[0] + wts[1]}), P.ZERO, "phi(w0 + w1)")
-        env.vars["l_max"] = wts[0] + wts[1]
-        tail = [s_ for s_ in body[widx + 1:] if not isinstance(s_, ast.AugAssign)]      # keep the un-normalised [gamma, Chi]
-        it.exec_block([s_ for s_ in tail if not isinstance(s_, ast.Return)], env)
-        gamma, Chi = env.vars.get("gamma"), to_obj(env.vars.get("Chi"))
-        vec = np.concatenate([[gamma], Chi])
+        env.vars[xname] = wts[0] + wts[1]
+        r_ = it.exec_block(body[widx + 1:], env)
+        if r_ is None or r_[0] is not _RET:
+            return (None, "tail of QUEST.estimate does not return")
+        vec = to_obj(r_[1])        # normalised [gamma, Chi]: proportionality is unaffected by the positive scale
         return all_of(root, either(("q", lambda: prop_to(vec, q, "[gamma, Chi] ~ q")), ("q*", lambda: prop_to(vec, conj(q), "[gamma, Chi] ~ q*"))))
     chk.ob("QUEST.consistent", f.ref, "for consistent unit data w0 + w1 is a root of phi and [gamma, Chi] is proportional to q^", consistent, construct="exact recovery", **kw)
 
@@ -229,19 +220,13 @@ def flae(chk, prog, tier):
     lam = P.sym("lam")
 
     def newton():
-        it = Interp(prog)
-        env = Env(f.module, f)
-        env.vars.update({"lam": lam, "t1": P.sym("t1"), "t2": P.sym("t2"), "t3": P.sym("t3")})
-        fx = fpx = None
-        for s in ast.walk(f.node):
-            if isinstance(s, ast.Assign) and isinstance(s.targets[0], ast.Name):
-                if s.targets[0].id == "f":
-                    fx = it.eval(s.value, env)
-                if s.targets[0].id == "fp":
-                    fpx = it.eval(s.value, env)
-        if fx is None or fpx is None:
-            return (None, "f / fp assignments not found")
-        return eq(fpx, fx.deriv("lam"), "fp")
+        from sa.lib import newton_derivative
+        cls_ = prog.cls(F + "flae.py::FLAE")
+        for m_ in cls_.methods.values():
+            r_ = newton_derivative(prog, m_)
+            if not (isinstance(r_, tuple) and r_[0] is None):
+                return r_
+        return (None, "no Newton update found in class FLAE")
     chk.ob("FLAE.newton", f.ref, "fp == d f / d lambda", newton, construct="Newton derivative", **kw)
     if tier == "thorough":
         def charpoly():
